@@ -89,31 +89,47 @@ static void tick_send_hello(void *ni) {
     lltd_port_sleep_ms(0);
 }
 
-static void do_boot(char **tok, int ntok) {
+/* IF id k=v ... : a freshly started responder on a new context pointer.
+ * SET id k=v ... : the platform's view of an EXISTING interface changes (address lease renewed, roamed to another
+ * access point, MTU lowered, host renamed through CFG): only the given attributes change, the context - and with it
+ * everything the responder remembers - stays. Both are logged as a "boot" event (keep = 0 / 1). */
+static void do_boot(char **tok, int ntok, int keep) {
     int id = atoi(tok[1]);
     if (id < 1 || id > VP_MAX_IF) die("bad interface id");
-    vif *v = calloc(1, sizeof *v);   /* fresh context pointer: a freshly started responder */
-    v->id = id;
-    parse_hex(kv(tok, ntok, "mac"), v->mac, 6);
-    v->mtu = (size_t)kvl(tok, ntok, "mtu", 1500);
-    v->wifi = (int)kvl(tok, ntok, "wifi", 0);
-    v->fill = (uint8_t)kvl(tok, ntok, "fill", 0xA5);
-    v->flags = (uint32_t)strtoul(kv(tok, ntok, "flags") ? kv(tok, ntok, "flags") : "0", NULL, 0);
-    v->iftype = (uint32_t)strtoul(kv(tok, ntok, "iftype") ? kv(tok, ntok, "iftype") : "6", NULL, 0);
-    parse_hex(kv(tok, ntok, "ipv4"), v->ipv4, 4);
-    parse_hex(kv(tok, ntok, "ipv6"), v->ipv6, 16);
-    v->speed = (uint32_t)strtoul(kv(tok, ntok, "speed") ? kv(tok, ntok, "speed") : "0", NULL, 0);
-    v->wmode = (uint8_t)kvl(tok, ntok, "wmode", 0);
-    parse_hex(kv(tok, ntok, "bssid"), v->bssid, 6);
-    v->ssid_len = parse_hex(kv(tok, ntok, "ssid"), v->ssid, sizeof v->ssid);
-    v->rate = (uint16_t)kvl(tok, ntok, "rate", 0);
-    v->rssi = (int8_t)kvl(tok, ntok, "rssi", 0);
-    v->phy = (uint32_t)strtoul(kv(tok, ntok, "phy") ? kv(tok, ntok, "phy") : "0", NULL, 0);
-    vp_if[id] = v;
-    extra[id] = NULL;
-    bootno++;
+    vif *v;
+    if (keep) {
+        v = vp_if[id];
+        if (!v) die("SET: interface not booted");
+    } else {
+        v = calloc(1, sizeof *v);   /* fresh context pointer: a freshly started responder */
+        v->id = id;
+        v->mtu = 1500; v->fill = 0xA5; v->iftype = 6;
+    }
+#define HAS(k) (kv(tok, ntok, k) != NULL)
+    if (HAS("mac") && !keep) parse_hex(kv(tok, ntok, "mac"), v->mac, 6);
+    if (HAS("mtu")) v->mtu = (size_t)kvl(tok, ntok, "mtu", 1500);
+    if (HAS("wifi") && !keep) v->wifi = (int)kvl(tok, ntok, "wifi", 0);
+    if (HAS("fill")) v->fill = (uint8_t)kvl(tok, ntok, "fill", 0xA5);
+    if (HAS("flags")) v->flags = (uint32_t)strtoul(kv(tok, ntok, "flags"), NULL, 0);
+    if (HAS("iftype")) v->iftype = (uint32_t)strtoul(kv(tok, ntok, "iftype"), NULL, 0);
+    if (HAS("ipv4")) parse_hex(kv(tok, ntok, "ipv4"), v->ipv4, 4);
+    if (HAS("ipv6")) parse_hex(kv(tok, ntok, "ipv6"), v->ipv6, 16);
+    if (HAS("speed")) v->speed = (uint32_t)strtoul(kv(tok, ntok, "speed"), NULL, 0);
+    if (HAS("wmode")) v->wmode = (uint8_t)kvl(tok, ntok, "wmode", 0);
+    if (HAS("bssid")) parse_hex(kv(tok, ntok, "bssid"), v->bssid, 6);
+    if (HAS("ssid")) v->ssid_len = parse_hex(kv(tok, ntok, "ssid"), v->ssid, sizeof v->ssid);
+    if (HAS("rate")) v->rate = (uint16_t)kvl(tok, ntok, "rate", 0);
+    if (HAS("rssi")) v->rssi = (int8_t)kvl(tok, ntok, "rssi", 0);
+    if (HAS("phy")) v->phy = (uint32_t)strtoul(kv(tok, ntok, "phy"), NULL, 0);
+#undef HAS
+    if (!keep) {
+        vp_if[id] = v;
+        extra[id] = NULL;
+        bootno++;
+    }
 
-    fprintf(tr, "{\"e\":\"boot\",\"ln\":%ld,\"ifc\":%d,\"boot\":%ld,\"mtu\":%zu,\"wifi\":%d,\"mac\":", lineno, id, bootno, v->mtu, v->wifi);
+    fprintf(tr, "{\"e\":\"boot\",\"keep\":%d,", keep);
+    fprintf(tr, "\"ln\":%ld,\"ifc\":%d,\"boot\":%ld,\"mtu\":%zu,\"wifi\":%d,\"mac\":", lineno, id, bootno, v->mtu, v->wifi);
     vp_json_bytes(tr, v->mac, 6);
     fprintf(tr, ",\"flags\":%u,\"iftype\":[%u,%u],\"ipv4\":", v->flags & 0xFFFF, v->iftype >> 16, v->iftype & 0xFFFF);
     vp_json_bytes(tr, v->ipv4, 4);
@@ -562,7 +578,8 @@ int main(int argc, char **argv) {
         for (char *p = strtok(line, " \t\r\n"); p && ntok < 64; p = strtok(NULL, " \t\r\n")) tok[ntok++] = p;
         if (ntok == 0 || tok[0][0] == '#') continue;
         if (!strcmp(tok[0], "CFG")) do_cfg(tok, ntok);
-        else if (!strcmp(tok[0], "IF")) do_boot(tok, ntok);
+        else if (!strcmp(tok[0], "IF")) do_boot(tok, ntok, 0);
+        else if (!strcmp(tok[0], "SET")) do_boot(tok, ntok, 1);
         else if (!strcmp(tok[0], "RX")) do_rx(tok, ntok, 0);
         else if (!strcmp(tok[0], "RXALL")) do_rx(tok, ntok, 1);
         else if (!strcmp(tok[0], "DRAIN")) do_drain(tok, ntok, 0);
